@@ -176,3 +176,59 @@ fn polling_worker_does_not_starve_idle_waiters_or_quiescence() {
     assert!(matches!(r.tasks[1].state, TState::Blocked { .. }));
     assert!(r.now > 0);
 }
+
+/// The happens-before tracker must not be stricter than the memory model: a cell published with
+/// `fence(Release); store(Relaxed)` and consumed with `load(Relaxed); fence(Acquire)` is race-free;
+/// the same without the fences is a race; a cell handed over under a simulated mutex is race-free.
+#[test]
+fn hb_tracker_knows_fences_and_mutexes() {
+    use cadence_dsim::sync::atomic::{fence, AtomicUsize, Ordering};
+    use cadence_dsim::sync::Mutex;
+    use std::sync::Arc;
+    fn run(with_fences: bool, via_mutex: bool, seed: u64) -> Vec<String> {
+        let mut kc = KConfig::new(seed, Strategy::Uniform);
+        kc.hb = true;
+        let r = Kernel::run(kc, move || {
+            let flag = Arc::new(AtomicUsize::new(0));
+            let cell = Arc::new(std::cell::UnsafeCell::new(0u64));
+            struct SendPtr(Arc<std::cell::UnsafeCell<u64>>);
+            unsafe impl Send for SendPtr {}
+            let m = Arc::new(Mutex::new(false));
+            let (f2, c2, m2) = (flag.clone(), SendPtr(cell.clone()), m.clone());
+            let h = cadence_dsim::thread::spawn(move || {
+                let c2 = c2;
+                if via_mutex {
+                    let mut g = m2.lock().unwrap();
+                    cadence_dsim::cell::on_write(c2.0.get());
+                    *g = true;
+                } else {
+                    cadence_dsim::cell::on_write(c2.0.get());
+                    if with_fences {
+                        fence(Ordering::Release);
+                    }
+                    f2.store(1, Ordering::Relaxed);
+                }
+            });
+            // reader (main): spins until published
+            loop {
+                let seen = if via_mutex { *m.lock().unwrap() } else { flag.load(Ordering::Relaxed) == 1 };
+                if seen {
+                    if with_fences && !via_mutex {
+                        fence(Ordering::Acquire);
+                    }
+                    cadence_dsim::cell::on_read(cell.get());
+                    break;
+                }
+                cadence_dsim::thread::sleep(std::time::Duration::from_nanos(1));
+            }
+            drop(h);
+        });
+        assert!(r.error.is_none(), "{:?}", r.error);
+        r.hb_violations
+    }
+    for seed in 0..40 {
+        assert!(run(true, false, seed).is_empty(), "fences: false race reported (seed {seed})");
+        assert!(run(false, true, seed).is_empty(), "mutex: false race reported (seed {seed})");
+        assert!(!run(false, false, seed).is_empty(), "relaxed without fences must be reported (seed {seed})");
+    }
+}
